@@ -37,12 +37,46 @@ fn subseq_positions(inp: &[IP], out: &[IP]) -> Option<Vec<usize>> {
     Some(pos)
 }
 
+/// Is there an embedding of `out` into `inp` as a subsequence with out[0] -> 0 and out[last] -> n-1 such that every dropped
+/// vertex is within eps of the retained segment replacing it? (positions are ambiguous when vertices repeat, so: existence)
+fn rdp_embedding_exists(inp: &[IP], out: &[IP], eps: f64) -> bool {
+    let (n, m) = (inp.len(), out.len());
+    if m == 0 || n == 0 || m > n {
+        return m == n;
+    }
+    if m == 1 {
+        return n == 1 && inp[0] == out[0];
+    }
+    let lim = eps * eps * (1.0 + 1e-12);
+    // feas[p] for the current j: out[..=j] embedded with out[j] at position p
+    let mut feas = vec![false; n];
+    feas[0] = inp[0] == out[0];
+    for j in 1..m {
+        let mut next = vec![false; n];
+        for q in j..n {
+            if inp[q] != out[j] {
+                continue;
+            }
+            for p in (j - 1)..q {
+                if feas[p] && (p + 1..q).all(|k| d2_pt_seg_f(inp[k], inp[p], inp[q]) <= lim) {
+                    next[q] = true;
+                    break;
+                }
+            }
+        }
+        feas = next;
+    }
+    feas[n - 1]
+}
+
 fn check_rdp(acc: &mut Acc, idx: usize, inp: &[IP], eps: f64, out: &[IP], kept: &[usize], what: &str, min_len: usize) {
     let n = inp.len();
     let wit = || json!({"input": format!("{:?}", inp), "epsilon": eps, "output": format!("{:?}", out), "kept_idx": format!("{:?}", kept)});
     if eps <= 0.0 {
         if out != inp {
             acc.viol(format!("{} epsilon<=0 is not the identity", what), idx, wit);
+        } else if !kept.iter().copied().eq(0..n) {
+            acc.viol(format!("{} epsilon<=0: the index variant is not the identity", what), idx, wit);
         }
         return;
     }
@@ -76,6 +110,8 @@ fn check_vw(acc: &mut Acc, idx: usize, inp: &[IP], eps: f64, out: &[IP], kept: &
     if eps <= 0.0 {
         if out != inp {
             acc.viol(format!("{} epsilon<=0 is not the identity", what), idx, wit);
+        } else if strict_area && !kept.iter().copied().eq(0..n) {
+            acc.viol(format!("{} epsilon<=0: the index variant is not the identity", what), idx, wit);
         }
         return;
     }
@@ -190,7 +226,18 @@ pub fn run(mut run: Run) -> i32 {
                                     if inp.len() >= min_len && oc.len() < min_len {
                                         acc.viol(format!("{} {} shrank below {} coordinates", what, rname, min_len), idx, || json!({"ring": format!("{:?}", inp), "epsilon": e, "output": format!("{:?}", oc)}));
                                     }
-                                    let _ = (pos, is_rdp, strict);
+                                    let _ = (pos, strict);
+                                    if e > 0.0 && is_rdp && first_last_ok && !rdp_embedding_exists(&inp, &oc, e) {
+                                        acc.viol(format!("{} {} dropped a vertex farther than epsilon from its replacing segment (no admissible embedding)", what, rname), idx, || json!({"ring": format!("{:?}", inp), "epsilon": e, "output": format!("{:?}", oc)}));
+                                    }
+                                    if what == "Polygon::simplify_vw" {
+                                        // a polygon ring is simplified as the line string it is (then closed by Polygon::new)
+                                        let mut want = ls(&inp).simplify_vw(e);
+                                        want.close();
+                                        if coords_of(&want) != oc {
+                                            acc.viol(format!("{} {} differs from LineString::simplify_vw of the ring", what, rname), idx, || json!({"ring": format!("{:?}", inp), "epsilon": e, "output": format!("{:?}", oc), "linestring": format!("{:?}", coords_of(&want))}));
+                                        }
+                                    }
                                     if oc.len() < inp.len() {
                                         acc.class(format!("{} n{} kept{} eps{}", what, inp.len(), oc.len(), e));
                                     }
